@@ -49,18 +49,6 @@ Proof.
   apply (sc_fold (fun c st => notify_delete B f (snd c) st)). intros a s0. apply IH.
 Qed.
 
-Lemma sc_renamed_call r nm s : same_core s (renamed_call B bstep r nm s).
-Proof. unfold renamed_call. destruct (fr_parent _); [apply sc_bcall | repeat split; auto]. Qed.
-
-Lemma sc_notify_name_change fuel : forall n s, same_core s (notify_name_change B bstep fuel n s).
-Proof.
-  induction fuel as [|f IH]; intros n s; cbn [notify_name_change]; [repeat split; auto|]. cbv zeta.
-  eapply same_core_trans.
-  - apply (sc_fold (fun e st => fold_left (fun st' r => renamed_call B bstep r (fst e) st') (snd e) st)).
-    intros e s0. apply (sc_fold (fun r st' => renamed_call B bstep r (fst e) st')). intros r s1. apply sc_renamed_call.
-  - apply (sc_fold (fun c st => notify_name_change B bstep f (snd c) st)). intros a s0. apply IH.
-Qed.
-
 Lemma sc_rwn_none n nm m : forall held s, same_core s (snd (rwn_loop B n nm None m held s)).
 Proof.
   induction m as [|r m IH]; intros held s; cbn [rwn_loop]; [apply same_core_refl|]. cbv zeta.
@@ -772,6 +760,58 @@ Proof.
   eapply led_equiv; [|exact (led_trans _ _ _ _ _ _ _ L1 L2)]. led_arith.
 Qed.
 
+(** notifyNameChange: the fidRefs it notifies are held meanwhile and returned *)
+Definition nspec (f : list nat * st -> list nat * st) : Prop :=
+  forall held s d, RefInvD s d ->
+    RefInvD (snd (f (held, s))) d /\ exists new, fst (f (held, s)) = held ++ new /\ led new [] s (snd (f (held, s))).
+
+Lemma nspec_fold {A} (f : A -> list nat * st -> list nat * st) (l : list A) :
+  (forall a, nspec (f a)) -> nspec (fun hs => fold_left (fun st a => f a st) l hs).
+Proof.
+  intros H. induction l as [|a l IH]; intros held s d Inv; cbn [fold_left].
+  - split; auto. exists []. rewrite app_nil_r. split; [reflexivity | apply led_refl].
+  - destruct (H a held s d Inv) as (I1 & n1 & E1 & L1). destruct (f a (held, s)) as [h1 s1]. cbn [fst snd] in *. subst h1.
+    destruct (IH (held ++ n1) s1 d I1) as (I2 & n2 & E2 & L2). split; auto.
+    exists (n1 ++ n2). split; [rewrite E2, app_assoc; reflexivity|].
+    eapply led_equiv; [|exact (led_trans _ _ _ _ _ _ _ L1 L2)]. led_arith.
+Qed.
+
+Lemma renamed_call_ok r nm : nspec (renamed_call B bstep r nm).
+Proof.
+  intros held s d Inv. unfold renamed_call, try_incref.
+  destruct (Z.leb_spec (fr_refs (gref s r)) 0) as [Le|Gt].
+  - cbn [fst snd]. split; auto. exists []. rewrite app_nil_r. split; [reflexivity | apply led_refl].
+  - assert (Lr : r < length (s_refs B s)).
+    { destruct (Nat.lt_ge_cases r (length (s_refs B s))); auto. unfold get_ref in Gt. rewrite nth_overflow in Gt by auto. cbn in Gt. lia. }
+    change (with_held B (r :: s_held B (incref B r s)) (incref B r s)) with (hold B r s).
+    pose proof (hold_inv_live B s d r Inv Lr Gt) as I2.
+    assert (L2 : led [r] [] s (hold B r s)).
+    { split; [intro; auto|]. unfold hc, hold; cbn. split; intros; rewrite !cnt_cons, !cnt_nil; lia. }
+    cbn [fst snd].
+    assert (SC : same_core (hold B r s) (match fr_parent (gref (hold B r s) r) with
+                 | Some p => snd (bcall_ B bstep (BRenamed (fr_file (gref (hold B r s) r)) (fr_file (gref (hold B r s) p)) nm) (hold B r s))
+                 | None => set_panic B (hold B r s) end)).
+    { destruct (fr_parent (gref (hold B r s) r)); [apply sc_bcall | apply sc_set_panic]. }
+    destruct (sc_ok _ _ d SC I2) as (I3 & L3). split; auto. exists [r]. split; [reflexivity|].
+    eapply led_equiv; [|exact (led_trans _ _ _ _ _ _ _ L2 L3)]. led_arith.
+Qed.
+
+Lemma notify_name_change_ok fuel : forall n, nspec (notify_name_change B bstep fuel n).
+Proof.
+  induction fuel as [|f IH]; intros n held s d Inv; cbn [notify_name_change fst snd].
+  - destruct (sc_ok s (set_oof B s) d (sc_set_oof B s) Inv) as (I1 & L1). split; auto.
+    exists []. rewrite app_nil_r. split; [reflexivity | exact L1].
+  - cbv zeta.
+    pose proof (nspec_fold (fun e hs => fold_left (fun st' r => renamed_call B bstep r (fst e) st') (snd e) hs) (pn_refs (get_node B s n))
+                  (fun e => nspec_fold (fun r hs => renamed_call B bstep r (fst e) hs) (snd e) (fun r => renamed_call_ok r (fst e)))) as F1.
+    destruct (F1 held s d Inv) as (I1 & n1 & E1 & L1).
+    destruct (fold_left _ (pn_refs (get_node B s n)) (held, s)) as [h1 s1]. cbn [fst snd] in *. subst h1.
+    pose proof (nspec_fold (fun c hs => notify_name_change B bstep f (snd c) hs) (pn_nodes (get_node B s n)) (fun c => IH (snd c))) as F2.
+    destruct (F2 (held ++ n1) s1 d I1) as (I2 & n2 & E2 & L2). split; auto.
+    exists (n1 ++ n2). split; [rewrite E2, app_assoc; reflexivity|].
+    eapply led_equiv; [|exact (led_trans _ _ _ _ _ _ _ L1 L2)]. led_arith.
+Qed.
+
 Lemma remove_with_name_ok n nm tgt newnm s d :
   RefInvD s d -> 0 < hc s tgt ->
   let r := remove_with_name B bstep n nm (Some (rename_cb B bstep tgt newnm)) s in
@@ -815,8 +855,13 @@ Proof.
   destruct (sc_ok s2 s3 d SC3 I2) as (I3 & L3).
   assert (L03 : led [] [] s s3) by (eapply led_equiv; [|exact (led_trans _ _ _ _ _ _ _ L02 L3)]; led_arith).
   destruct (s_panic B s3); [auto|].
-  destruct (sc_ok s3 _ d (sc_notify_name_change (node_fuel B s3) cn s3) I3) as (I4 & L4). split; auto.
-  eapply led_equiv; [|exact (led_trans _ _ _ _ _ _ _ L03 L4)]. led_arith.
+  destruct (notify_name_change_ok (node_fuel B s3) cn [] s3 d I3) as (I4 & new & E4 & L4).
+  destruct (notify_name_change B bstep (node_fuel B s3) cn ([], s3)) as [held s4]. cbn [fst snd app] in *. subst held.
+  assert (L04 : led new [] s s4) by (eapply led_equiv; [|exact (led_trans _ _ _ _ _ _ _ L03 L4)]; led_arith).
+  assert (H4 : forall q, cnt new q <= hc s4 q).
+  { intros q. pose proof (led_ge _ _ _ _ q L04) as G. rewrite cnt_nil in G. lia. }
+  destruct (release_all_ok new s4 d I4 H4) as (I5 & L5). split; auto.
+  eapply led_equiv; [|exact (led_trans _ _ _ _ _ _ _ L04 L5)]. led_arith.
 Qed.
 
 Lemma ok_rename c fid dfid nm : ok [] (fun s => snd (do_rename B bstep c fid dfid nm s)).
